@@ -79,8 +79,7 @@ Proof.
   destruct Hok as [Hw Hfull _].
   assert (Hrun : exists s', run_sub env o st = (SOk v, s')).
   { destruct amb as [[ix sh]|].
-    - destruct (f_autocomplete feat); cbn in H; [discriminate|].
-      destruct (run_sub env o st) as [r s']. destruct r as [v0|[h|c|m]|w|]; cbn in H; inv H. eauto.
+    - cbn in H. discriminate.
     - destruct (run_sub env o st) as [r s']. destruct r as [v0|[h|c|m]|w|]; cbn in H; inv H. eauto. }
   destruct Hrun as [s' Hrun].
   eapply unclaimable_item; eauto.
